@@ -1,5 +1,6 @@
 import VModel.Trainer
 import VProofs.Lemmas.FeatGen
+import VProofs.Lemmas.TrainCli
 /-!
 # C10 — Training uses exactly the annotated boundaries with the documented features
 
@@ -71,5 +72,43 @@ example :
     (genFeatures cfg ['a', 'b', 'c'] 0).count (Feature.dictWord 2 .left) = 1 ∧
     dictMatches cfg.dictWords ['a', 'b', 'c'] = [(1, 3)] := by
   decide
+
+/-! ## the `train` tool: what reaches the learner is what the input lines say (loading stage, hook H5) -/
+
+/-- one input line of the `train` tool.  With `--no-norm` the sentence handed to the trainer is the parsed line itself; without
+it, it is a consistent sentence over the *normalised* text that carries the labels, the tag count and the tags of the parsed
+line (so the examples of C10 are those of the normalised sentence with the line's annotation); a line the parser rejects is
+an error of the tool; nothing panics (both length-checked slice copies always fit, because normalisation keeps the number of
+characters) -/
+theorem C10_train_tool_line (k : CorpusKind) (line : List Char) :
+    loadLine k true line = parseLine k line ∧
+    (∀ e, parseLine k line = .err e → ∀ nn, loadLine k nn line = .err e) ∧
+    (∀ r, parseLine k line = .ok r → ∃ s', loadLine k false line = .ok s' ∧ s'.text = Gen.fullwidth r.text ∧
+        s'.types = typesOf (Gen.fullwidth r.text) ∧ s'.bounds = r.bounds ∧ s'.nTags = r.nTags ∧ s'.tags = r.tags ∧ Inv s') ∧
+    (∀ nn, (loadLine k nn line).Safe) := by
+  refine ⟨TrainCliL.loadLine_true k line, fun e he nn => TrainCliL.loadLine_err he nn, fun r hr => ?_,
+    fun nn => TrainCliL.loadLine_safe k nn line⟩
+  obtain ⟨s', h1, h2, h3, h4, h5, h6, _, h8⟩ := TrainCliL.loadLine_false_ok hr
+  exact ⟨s', h1, h2, h3, h4, h5, h6, h8⟩
+
+/-- the sentences given to `add_example` are the lines of the `--tok` files followed by the lines of the `--part` files, one
+sentence per line, in order -/
+theorem C10_train_tool_corpus (nn : Bool) (tok part dict : List (List Char)) (inp : TrainInputs)
+    (h : trainCliInputs nn tok part dict = .ok inp) :
+    ∃ ts ps, mapRes (loadLine .tok nn) (tok.flatMap splitLines) = .ok ts ∧
+      mapRes (loadLine .part nn) (part.flatMap splitLines) = .ok ps ∧ inp.corpus = ts ++ ps ∧
+      inp.corpus.length = (tok.flatMap splitLines).length + (part.flatMap splitLines).length := by
+  exact TrainCliL.corpus_spec h
+
+/-- non-vacuity: the tok line `ab c/X` reaches the trainer as the full-width text `ａｂｃ` with the line's labels and tag; a
+tok file and a part file give two examples in that order; a line with two consecutive spaces ends the tool with an error -/
+example :
+    (loadLine .tok false ['a', 'b', ' ', 'c', '/', 'X']).map (fun s => (s.text, s.bounds, s.tags, s.nTags)) =
+      .ok (['ａ', 'ｂ', 'ｃ'], [B.N, B.W], [none, none, some ['X']], 1) ∧
+    (trainCliInputs false [['a', 'b', ' ', 'c', '/', 'X', '\n']] [['a', '|', 'b', '-', 'c', '\n']] []).map
+        (fun i => i.corpus.map (fun s => (s.text, s.bounds))) =
+      .ok [(['ａ', 'ｂ', 'ｃ'], [B.N, B.W]), (['ａ', 'ｂ', 'ｃ'], [B.W, B.N])] ∧
+    (trainCliInputs false [['a', 'b', ' ', ' ', 'c', '\n']] [] []).map (fun i => i.corpus) = .err .invalidArgument := by
+  decide +kernel
 
 end V
